@@ -11,15 +11,25 @@ for ln in open(f"{V}/seeded/results.jsonl"):
         continue
     key = (d.get("kind"), d.get("id") or d.get("commit"), d.get("property"))
     rows[key] = d
+notes = json.load(open(f"{V}/seeded/reverts/notes.json"))
 out = []
 out.append("| change | kind | property / check | caught | violated clauses (cases of the quick tier) |")
 out.append("|---|---|---|---|---|")
 for (kind, ident, prop), d in sorted(rows.items(), key=lambda kv: (kv[0][0], kv[0][2] or "", kv[0][1] or "")):
-    if "error" in d:
+    if kind == "seeded":
+        try:
+            sup = json.load(open(f"{V}/seeded/{ident}/meta.json")).get("superseded")
+        except Exception:
+            sup = None
+    else:
+        sup = notes.get(ident)
+    if sup and ("error" in d or not d.get("caught")):
+        res, groups = "see note", sup
+    elif "error" in d:
         res, groups = "n/a", d["error"][:60]
     else:
         res = "yes" if d.get("caught") else "NO"
-        groups = (d.get("groups") or [""])[0].replace("violation groups (clause/sig: cases): ", "")[:150]
+        groups = (d.get("groups") or [""])[0].replace("violation groups (clause/sig: cases): ", "")[:170]
     what = ""
     if kind == "seeded":
         try:
@@ -28,5 +38,14 @@ for (kind, ident, prop), d in sorted(rows.items(), key=lambda kv: (kv[0][0], kv[
             pass
     else:
         what = d.get("what", "")[:110]
-    out.append(f"| `{ident}` - {what} | {'sub-agent' if kind == 'seeded' else 'reverted fix'} | {prop} | {res} | {groups} |")
+    label = "sub-agent" if kind == "seeded" else "reverted fix"
+    if kind == "seeded":
+        try:
+            if json.load(open(f"{V}/seeded/{ident}/meta.json"))["property"] != prop:
+                label = "sub-agent (other property's check, run for information)"
+                if res == "NO":
+                    res = "no (property not broken by this change)"
+        except Exception:
+            pass
+    out.append(f"| `{ident}` - {what} | {label} | {prop} | {res} | {groups} |")
 print("\n".join(out))
